@@ -136,6 +136,14 @@ func parseVia(entry, text string, base int, prec uint32, mode uint8, chunk int, 
 		entry = strings.TrimSuffix(entry, "+laden")
 		z = ladenRecv(prec, mode)
 	}
+	if strings.HasSuffix(entry, "+lowfirst") {
+		// the same literal was parsed at a much lower precision just before, by
+		// somebody else: whatever the library remembered from that call (a table
+		// entry, a memoised power) must not be served to this one
+		entry = strings.TrimSuffix(entry, "+lowfirst")
+		lp := uint32(1 + len(text)%5)
+		_, _, _ = newRecv(lp, uint8(len(text)%6)).Parse(text, base)
+	}
 	if strings.HasSuffix(entry, "+failed") {
 		// a receiver whose previous call was a parse that failed late, after many
 		// digits had been consumed: whatever that call left behind (partial
@@ -654,7 +662,7 @@ func runParse(sc *Scenario) *Outcome {
 		}
 	}
 	ref := parseVia("Parse", text, base, prec, mode, 0, nil, nil)
-	if !single || bs.Entry == "Parse+laden" || bs.Entry == "Parse+failed" {
+	if !single || bs.Entry == "Parse+laden" || bs.Entry == "Parse+failed" || bs.Entry == "Parse+lowfirst" {
 		// the outcome must not depend on what the receiver held before (value,
 		// sign, accuracy, buffer): same call into a history-laden receiver
 		lad := one("Parse+laden", text, base, 0, nil)
@@ -676,6 +684,15 @@ func runParse(sc *Scenario) *Outcome {
 					&BytesSpec{Entry: "Parse+failed", Text: text, Base: base, RecvPrec: prec, RecvMode: mode})
 			}
 			cnt["after_failed_parse_agreements"]++
+			lf := one("Parse+lowfirst", text, base, 0, nil)
+			if lf.panicMsg != "" {
+				return viol("parse-panic", fmt.Sprintf("Parse(%q, %d) after the same literal was parsed at a low precision: %s", text, base, lf.panicMsg), &BytesSpec{Entry: "Parse+lowfirst", Text: text, Base: base, RecvPrec: prec, RecvMode: mode})
+			}
+			if !lf.ok || lf.key() != ref.key() {
+				return viol("depends-on-process-history", fmt.Sprintf("Parse(%q, %d) = %s\n  the same call after the literal had been parsed into another Decimal at a low precision = %s", text, base, ref.key(), lf.key()),
+					&BytesSpec{Entry: "Parse+lowfirst", Text: text, Base: base, RecvPrec: prec, RecvMode: mode})
+			}
+			cnt["after_low_precision_parse_agreements"]++
 		}
 	}
 	ref0 := ref
